@@ -397,3 +397,71 @@ def guarded_by_variant(b, site_bb, paths, variant):
         if g[3][0] == 'discr' and deep_path(b, g[3][1]) in paths and guard_variant(b, g) == variant:
             return True
     return False
+
+
+def switch_test(b, bb):
+    """what the switch ending block bb tests: ('discr', access path of the enum place) | ('val', access path)"""
+    t = b.blocks[bb]['term']
+    if t['k'] != 'switch':
+        return None
+    if t['discr']['k'] in ('copy', 'move') and not t['discr']['place']['p']:
+        ds = [d for d in b.defs_of(t['discr']['place']['l']) if d[0] == 'stmt']
+        # after jump threading the discriminant read may exist in several copies of the same statement
+        pls = {json_key(d[3]['rv']['place']) for d in ds if d[3]['rv']['k'] == 'discr'}
+        if ds and len(pls) == 1 and all(d[3]['rv']['k'] == 'discr' for d in ds):
+            return ('discr', b.access_path({'k': 'copy', 'place': ds[0][3]['rv']['place']}))
+    return ('val', b.access_path(t['discr']))
+
+
+def json_key(x):
+    import json
+    return json.dumps(x, sort_keys=True)
+
+
+def strip_refs(ap):
+    return [e for e in (ap or []) if e not in ('&', '*')]
+
+
+def reload_waits_for_own_token(rl):
+    """HotReloader::reload on the normal form: (ok, why).  The Ptr message carries the token just drawn; wait_for_answer
+    runs exactly when send returned Ok (only then, and on every such path), with that token."""
+    tok = [c for c in rl.calls() if c.callee and c.callee.name == 'get_unique_token']
+    snd = [c for c in rl.calls() if c.callee and c.callee.best == 'crossbeam_channel::Sender::<T>::send']
+    wt = [c for c in rl.calls() if c.callee and c.callee.name == 'wait_for_answer']
+    if not (len(tok) == 1 and len(snd) == 1 and len(wt) == 1):
+        return False, 'shape: one get_unique_token, one send, one wait_for_answer expected (found %d, %d, %d)' % (len(tok), len(snd), len(wt))
+    tk = ['call@bb%d' % tok[0].bb]
+    if deep_path(rl, wt[0].args[1]) != tk:
+        return False, 'wait_for_answer does not wait for the token drawn by this call'
+    from mir import agg_stmts
+    msg = [s for s in agg_stmts(rl, snd[0].args[1]) if s['rv'].get('variant_name') == 'Ptr']
+    if len(msg) != 1 or deep_path(rl, msg[0]['rv']['ops'][2]) != tk:
+        return False, 'the message sent does not carry the token drawn by this call'
+    g = [x for x in guards_of(rl, wt[0].bb) if x[3][0] == 'discr']
+    mine = [x for x in g if deep_path(rl, x[3][1]) == ['call@bb%d' % snd[0].bb] and guard_variant(rl, x) == 0]
+    if not mine:
+        return False, 'wait_for_answer is reachable although the message was not sent (it would block forever)'
+    if not inevitable(rl, mine, wt[0].bb):
+        return False, 'after a successful send a path returns without waiting for the answer (hot_reload would return before the reloads are done)'
+    return True, ''
+
+
+def returns_is_variant(b, variant):
+    """for a bool function on the normal form: the deep path P such that the function returns true exactly when the
+    enum at P has the given variant index (x.is_some() / matches!(x, Some(_)) / match x {..}), else None"""
+    rets = [(bb, s) for bb, _, s in b.assigns() if s['place']['l'] == 0 and not s['place']['p']]
+    if not rets:
+        return None
+    paths = set()
+    for bb, s in rets:
+        if s['rv']['k'] != 'use' or s['rv']['op'].get('k') != 'const' or s['rv']['op'].get('text') not in ('true', 'false'):
+            return None
+        val = s['rv']['op']['text'] == 'true'
+        g = [x for x in guards_of(b, bb) if x[3][0] == 'discr']
+        if len(g) != 1:
+            return None
+        v = guard_variant(b, g[0])
+        if (v == variant) != val:
+            return None
+        paths.add(tuple(strip_refs(deep_path(b, g[0][3][1]))))
+    return list(paths.pop()) if len(paths) == 1 else None
